@@ -35,6 +35,7 @@ from ..concrete_provider import (
     RegexPatternProvider,
     SecondsTimedeltaProvider,
     SelfTypeProvider,
+    make_constructor_loader,
 )
 from ..constant_length_tuple_provider import ConstantLengthTupleProvider
 from ..dict_provider import DefaultDictProvider, DictProvider
@@ -104,7 +105,7 @@ class FilledRetort(OperatingRetort, ABC):
 
         *chain.from_iterable(
             (
-                loader(tp, tp),
+                loader(tp, make_constructor_loader(tp)),
                 dumper(tp, tp.__str__),  # type: ignore[arg-type]
             )
             for tp in [
@@ -116,7 +117,7 @@ class FilledRetort(OperatingRetort, ABC):
         ),
         *chain.from_iterable(
             (
-                loader(tp, tp),
+                loader(tp, make_constructor_loader(tp)),
                 dumper(tp, tp.__fspath__),  # type: ignore[attr-defined]
             )
             for tp in [
